@@ -797,31 +797,39 @@ def r15_8(ctx, prog, crate):
     t_new = {}
     sums = PathEval(new).run()
     if ctx.check(bool(sums), "R15.8", ["new", "readable"], "cannot summarise AnyCounter::new", new.where(0)):
+        def kind_and_count(r, body, depth=0):
+            """(kind variant, count expression) of an AnyCounter-valued expression: known(<Kind>, n), the struct itself, or
+            a local constructor that returns one of those for its argument (substituted)."""
+            if r[0] == "site" and r[1] == A + "AnyCounter::known" and len(r[3]) == 2 and r[3][0][0] == "adt":
+                return r[3][0][2], r[3][1]
+            if r[0] == "adt" and r[1] == A[:-2] + "::AnyCounter" or (r[0] == "adt" and r[1].endswith("AnyCounter")):
+                f = dict(zip(r[4], r[3]))
+                if f.get("kind", ("?",))[0] == "adt":
+                    return f["kind"][2], f.get("count")
+            if r[0] == "site" and r[1].startswith(A + "AnyCounter::") and depth < 2 and len(r[3]) == 1:
+                ctor = prog.body(r[1], crate)
+                cs = PathEval(ctor).run() if ctor is not None else None
+                if cs and len(cs) == 1:
+                    ctx.saw(ctor)
+                    kc = kind_and_count(cs[0].ret, ctor, depth + 1)
+                    if kc is not None and kc[1] == ("arg", 1, ()):
+                        return kc[0], r[3][0]
+            return None
         for s in sums:
             pos = [a for a, p in s.conds if p and a[0] == "discr" and a[2] == 1]
-            if not pos or s.ret[0] != "site" or not s.ret[1].startswith(A + "AnyCounter::"):
-                ctx.fail("R15.8", ["new", "path-shape"], "a path of AnyCounter::new is not `cast_ref::<T>() is Some => AnyCounter::<ctor>(..)` (%s)" % (s.ret,), new.where(0))
+            if not pos:
+                ctx.fail("R15.8", ["new", "path-shape"], "a path of AnyCounter::new is not `cast_ref::<T>() is Some => a counter` (%s)" % (s.ret,), new.where(0))
                 continue
             cast = pos[-1][1]
             ty = garg_of(new, cast[2]) if cast[0] == "site" and cast[1].endswith("TypeCast::cast_ref") else None
-            ctor = prog.body(s.ret[1], crate)
-            arg = s.ret[3][0] if s.ret[3] else None
-            ok = ty is not None and ctor is not None and arg is not None and arg[0] == "field" and arg[2] == ("count",) and arg[1][0] == "payload" and arg[1][3] == cast
+            kc = kind_and_count(s.ret, new)
+            if not ctx.check(kc is not None, "R15.8", ["new", ty or "?", "constructor"], "AnyCounter::new returns %s for a %s, which is not `known(<Kind>, count)`" % (s.ret[:2], ty), new.where(0)):
+                continue
+            kind, arg = kc
+            ok = ty is not None and arg is not None and arg[0] == "field" and arg[2] == ("count",) and arg[1][0] == "payload" and arg[1][3] == cast
             if not ctx.check(ok, "R15.8", ["new", ty or "?", "count-of-the-same-cast"], "AnyCounter::new builds the %s counter from %s, expected the count of the value just cast to it" % (ty, arg), new.where(cast[2] if cast[0] == "site" else 0)):
                 continue
-            ctx.saw(ctor)
-            cs = PathEval(ctor).run()
-            kind = None
-            if cs and len(cs) == 1:
-                r = cs[0].ret
-                if r[0] == "site" and r[1] == A + "AnyCounter::known" and len(r[3]) == 2 and r[3][0][0] == "adt" and r[3][1] == ("arg", 1, ()):
-                    kind = r[3][0][2]
-                elif r[0] == "adt":
-                    f = dict(zip(r[4], r[3]))
-                    if f.get("kind", ("?",))[0] == "adt" and f.get("count") == ("arg", 1, ()):
-                        kind = f["kind"][2]
-            if ctx.check(kind is not None, "R15.8", ["new", s.ret[1].rsplit("::", 1)[-1], "constructor"], "`%s` is not `known(<Kind>, count)`" % s.ret[1], ctor.where(0)):
-                t_new[ty] = kind
+            t_new[ty] = kind
     kn = prog.body(A + "AnyCounter::known", crate)
     if ctx.anchor("R15.8", "AnyCounter::known", 1 if kn else 0, 1):
         ctx.saw(kn)
